@@ -303,3 +303,63 @@ Theorem run_handler_reads_w_top : run_handler_reads_w_top_stmt.
 Proof.
   intros maxc script f r w Hs Hinv Hrem. apply run_handler_reads_w; try assumption. intros sg _. reflexivity.
 Qed.
+
+(* ------------------------------------------------------------------------------------------ *)
+(* Part 4: non-vacuity                                                                          *)
+(* ------------------------------------------------------------------------------------------ *)
+(* A Responder request (the state and world of exA_* in Async/LoopProofs2.v) whose handler reads 2 bytes of stdin,
+   writes one byte to stdout (after a wake-up of the writer), reads again (read(buf)?), flushes and exits. *)
+Definition exB_stdin : bytes := [1; 5; 0; 1; 0; 3; 5; 0; 97; 98; 99; 0; 0; 0; 0; 0].
+Definition exB_r : rstate := mkR (new_sparser 64 (mkReq 1 1 1 [])) true false false.
+Definition exB_w : world := mkW [0; 3; 0] [0; 4] [(0, 0, exB_stdin)] [] 0 1 0 false false [].
+Definition exB_script : list N := [1; 2; 6; 6; 1; 33; 10; 3; 7; 6; 8; 0; 0].
+Definition exB_os : list hobs := [HR (ORead 2 [97; 98]); HWrite 0; HR (ORead 1 [99]); HFlush 0].
+
+Example exB_any_script : any_script exB_script.
+Proof. unfold exB_script. repeat (constructor; vm_compute). Qed.
+
+Example exB_hyps : pinv (rsp exB_r) /\ bytes_ok (remaining exB_w) /\ K (abs (rsp exB_r)) (remaining exB_w) = [97; 98; 99].
+Proof.
+  split; [apply new_sparser_pinv|]. split; [apply bytes_okb_ok; vm_compute; reflexivity|vm_compute; reflexivity].
+Qed.
+
+(* the run returns Ok; the events are those of exB_os (newest first) under the event of the return *)
+Example exB_run : exists r' w',
+  run_handler 10 20 exB_script exB_r exB_w = Ok (inl (0, 0), r') w' /\
+  events w' = [[8]; [7; 0]; [99]; [1; 1; 1]; [6; 0]; [97; 98]; [1; 1; 2]] /\
+  events w' = [[8]] ++ flat_map hobs_events (rev exB_os) ++ events exB_w /\
+  wlog w' = [1; 6; 0; 1; 0; 1; 7; 0; 33; 0; 0; 0; 0; 0; 0; 0] /\
+  K (abs (rsp r')) (remaining w') = [].
+Proof. do 2 eexists. split; [vm_compute; reflexivity|]. repeat split. Qed.
+
+(* the observations are those of the script, and the law says: [97; 98] then [99] is the stream, the write in between
+   notwithstanding *)
+Example exB_law a0 u0 : hobs_of exB_script exB_os /\ htlaw a0 u0 (Some 5) [97; 98; 99] exB_os [].
+Proof.
+  split.
+  - unfold exB_script, exB_os. apply HO_read. apply HO_write. change (drop 1 [33; 10; 3; 7; 6; 8; 0; 0]) with [10; 3; 7; 6; 8; 0; 0].
+    apply HO_readq. apply HO_flush. apply HO_nil.
+  - cbn [exB_os htlaw hobs_switch hobs_bytes obs_switch obs_bytes].
+    exists [99]. split; [reflexivity|]. exists [99]. split; [reflexivity|]. exists []. split; [reflexivity|].
+    exists []. split; reflexivity.
+Qed.
+
+(* the theorem at this instance *)
+Example exB_instance : hw_post exB_script (abs (rsp exB_r)) (remaining exB_w) exB_r exB_w (run_handler 10 20 exB_script exB_r exB_w).
+Proof.
+  destruct exB_hyps as (H1 & H2 & _). apply run_handler_reads_w_top; [exact exB_any_script|exact H1|exact H2].
+Qed.
+
+(* a script that selects a stream, is refused nothing, reads to the end and fails: writes before, between and after *)
+Definition exB_script2 : list N := [6; 6; 1; 33; 4; 5; 1; 2; 6; 7; 2; 34; 35; 2; 7; 6; 5; 6; 6; 0; 9; 3].
+
+Example exB_any_script2 : any_script exB_script2.
+Proof. unfold exB_script2. repeat (constructor; vm_compute). Qed.
+
+Example exB_run2 : exists r' w',
+  run_handler 10 20 exB_script2 exB_r exB_w = Ok (inr 3, r') w' /\
+  events w' = [[9]; [6; 0]; [5; 0; 1; 5]; [7; 0]; [99]; [2; 3]; [6; 0]; [97; 98]; [1; 1; 2]; [4; 5]; [6; 0]].
+Proof. do 2 eexists. split; [vm_compute; reflexivity|reflexivity]. Qed.
+
+Print Assumptions run_handler_reads_w.
+Print Assumptions run_handler_reads_w_top.
